@@ -53,7 +53,7 @@ CheckRoundTrip(e) ==
     LET S == e.spec
         T == c.targets IN
     /\ Cnt(10, TRUE)
-    /\ Chk(e, "ParseNeverPanics", ~Panicked(e))
+    /\ Chk(e, "RoundTripNeverPanics", ~Panicked(e))
     /\ IF Panicked(e) THEN TRUE
        ELSE IF ~UniqueNames(S) THEN TRUE
        ELSE /\ Chk(e, "RoundTrip_" \o e.via \o "_Parses", e.ret = "ok")
